@@ -9,6 +9,7 @@ mod agentkit;
 mod c08;
 mod c09;
 mod c10;
+mod c16;
 mod c18;
 pub mod util;
 
@@ -55,6 +56,10 @@ fn run_lines() {
             "needs" => c04::needs(&mut t),
             "members" => c18::members(&mut t),
             "ingest" => c10::ingest(&mut t),
+            "uni" => c16::uni(&mut t),
+            "serve" => c16::serve(&mut t),
+            "partners" => c16::partners(&mut t),
+            "bcast" => c16::bcast(&mut t),
             "wire" => c09::wire(&mut t),
             "decode" => c09::decode(&mut t),
             "pack" => c09::pack(&mut t),
